@@ -316,9 +316,21 @@ def run(ctx, chk, tier="quick"):
         return
     sinks = 0
     for s in ctx.sites_in(mas):
-        if s.stmt is None or s.stmt.kind != "insert" or not isinstance(s.params_node, ast.Dict):
+        if s.stmt is None or s.stmt.kind != "insert":
             continue
-        pd = {k.value: v for k, v in zip(s.params_node.keys, s.params_node.values) if isinstance(k, ast.Constant)}
+
+        class _P(dict):
+            # parameter reference (name or position) -> bound Python expression
+            def __contains__(self_, k):
+                return s.param(k, maflow) is not None
+
+            def __getitem__(self_, k):
+                return s.param(k, maflow)
+
+            def get(self_, k, d=None):
+                v_ = s.param(k, maflow)
+                return v_ if v_ is not None else d
+        pd = _P()
         cols = s.stmt.columns
         vals = s.stmt.values if s.stmt.values is not None else [c[0] for c in s.stmt.select.columns] if s.stmt.select is not None else []
         for col, v in zip(cols, vals):
@@ -330,7 +342,7 @@ def run(ctx, chk, tier="quick"):
                                key="match_all_storms|%s|interval_type" % s.stmt.table)
                 continue
             if v[0] != "param" or v[1] not in pd:
-                chk.indeterminate("C03.O3", where_of(mas, s.call), "value of %s.%s is not a named parameter" % key)
+                chk.indeterminate("C03.O3", where_of(mas, s.call), "value of %s.%s is not a bound parameter" % key)
                 continue
             sinks += 1
             try:
@@ -429,13 +441,20 @@ def run(ctx, chk, tier="quick"):
                 continue
             sel = s.stmt
             tabs = {x.table for x in sel.sources}
+            sub_preds = []
+            for pr in conjuncts(sel.where):
+                # epoch IN (SELECT epoch FROM grid_time WHERE data_interval = ?): grid_time takes part through the sub-query
+                if pr[0] in ("in", "inlist") and len(pr[2]) == 1 and pr[2][0][0] == "subq":
+                    q_ = pr[2][0][1]
+                    tabs |= {x.table for x in q_.sources}
+                    sub_preds += conjuncts(q_.where)
             if not {"grid_time", "water_level", "rainfall_intensity"} <= tabs:
                 continue
             n_feed += 1
             preds = []
             for src in sel.sources:
                 preds += conjuncts(src.on)
-            preds += conjuncts(sel.where)
+            preds += conjuncts(sel.where) + sub_preds
             restricted = False
             for pr in preds:
                 if pr[0] == "bin" and pr[1] == "=" and {pr[2][0], pr[3][0]} == {"col", "param"}:
@@ -443,9 +462,8 @@ def run(ctx, chk, tier="quick"):
                     par = pr[3] if pr[2][0] == "col" else pr[2]
                     if col[2] == "data_interval":
                         # bound parameter is the function's data_interval argument
-                        pn = s.params_node
-                        if isinstance(pn, ast.Tuple) and isinstance(par[1], int) and par[1] < len(pn.elts):
-                            a = pn.elts[par[1]]
+                        a = s.param(par[1], Flow.of(f))
+                        if a is not None:
                             restricted = isinstance(a, ast.Name) and a.id in f.params
             # equivalence classes of (table, column) under the join equalities (ON / WHERE / USING)
             alias = {x.alias: x.table for x in sel.sources if x.table}
